@@ -1,6 +1,8 @@
 import ClusterVerif.Spec.C06
 import ClusterVerif.Spec.C06S
 import ClusterVerif.Model.C06S
+import ClusterVerif.Model.C06O
+import ClusterVerif.Spec.C06O
 import Driver.Parse
 /-!
 Line protocol of the C06 harness (tokens after the leading `C06`):
@@ -618,6 +620,53 @@ def answerFS (pre post : List String) : String :=
     | _, _, _, _, _, _, _, _, _ => "bad-case fs fields"
   | _ => "bad-case arity"
 
+/-! ### the operation tracker's getters (`to`, round 8c) -/
+
+def parseOp3 (s : String) : Option (Nat × Nat × Nat) :=
+  match s.splitOn "." with
+  | [a, b, c] => do pure (← a.toNat?, ← b.toNat?, ← c.toNat?)
+  | _ => none
+
+def parseFltTok (s : String) : Option (Nat × Nat) :=
+  if s.startsWith "T" then (((s.drop 1).toString).toNat?).map (fun n => (0, n))
+  else if s.startsWith "P" then (((s.drop 1).toString).toNat?).map (fun n => (1, n))
+  else none
+
+def parseEachTok (s : String) : Option (Nat × Option Nat) :=
+  match s.splitOn ":" with
+  | [a, b] => do
+    let c ← a.toNat?
+    if b == "-" then pure (c, none) else pure (c, some (← b.toNat?))
+  | _ => none
+
+def answerTO (pre post : List String) : String :=
+  match pre with
+  | [opsS, fltS] =>
+    match listOf parseOp3 opsS, listOf parseFltTok fltS with
+    | some ops, some flts =>
+      let m := O.trackAll (ops.map fun p => ({ cid := p.1, typ := p.2.1, ph := p.2.2 } : O.TOp))
+      let fs : List O.Flt := flts.map fun f => ({ kind := f.1, val := f.2 } : O.Flt)
+      let arm := "arm=to-" ++ (if flts.isEmpty then "nofilter" else if flts.length == 1 then "one" else "chain") ++
+        (if (O.filterOps fs m).isEmpty then "-empty" else "-some") ++
+        (if ops.length > m.length then " arm=to-replaced-or-kept" else "") ++
+        (if ops.any (fun p => p.2.1 == 0 || p.2.1 > 4 || p.2.2 > 3) then " arm=to-unknown-const" else "")
+      if post == ["panic"] then "propfail no_panic " ++ arm else
+      match (kv post "A").bind parsePairs, (kv post "F").bind parsePairs, (kv post "S").bind (listOf parseEachTok) with
+      | some a, some f, some s =>
+        let o : SpecO.Obs := { ops := ops, flts := flts, all := a, flt := f, each := s }
+        let failed := (SpecO.clauses o).filter (fun e => !e.2)
+        let ma := sortPairs (O.getAll m)
+        let mf := sortPairs (O.filterInfos fs m)
+        let ms := s.map fun e => (e.1, O.statusOf m e.1)
+        if !failed.isEmpty then
+          "propfail " ++ ",".intercalate (failed.map (·.1)) ++ " " ++ arm ++ (if a != ma || f != mf || s != ms then " modeldiff" else "")
+        else if a != ma || f != mf || s != ms then
+          "diff " ++ arm ++ " model=A=" ++ showPairs ma ++ "/F=" ++ showPairs mf
+        else "ok " ++ arm ++ (if ops.isEmpty then " trivial" else "")
+      | _, _, _ => "bad-case unparsable-output"
+    | _, _ => "bad-case unparsable-input"
+  | _ => "bad-case arity"
+
 /-- answer for one case line (tokens after the leading "C06") -/
 def answer (ws : List String) : String :=
   match ws with
@@ -632,6 +681,7 @@ def answer (ws : List String) : String :=
       else if kind == "tf" then answerTF pre post
       else if kind == "tr" then answerTR pre post
       else if kind == "fs" then answerFS pre post
+      else if kind == "to" then answerTO pre post
       else "bad-case unknown-kind"
   | [] => "bad-case empty"
 
